@@ -19,6 +19,16 @@ with open(%r, 'w') as _f:
     json.dump(_rec, _f)
 '''
 
+# the -s setup file: it uses the importable decorator before kernprof takes it over (the decorator then decides for
+# itself, looking at LINE_PROFILE and at sys.argv - which at that moment holds the PROGRAM's arguments)
+SETUP = '''
+import line_profiler
+@line_profiler.profile
+def _setup_helper(x):
+    return x + 1
+_setup_helper(1)
+'''
+
 
 def main():
     payload = read_payload()
@@ -30,7 +40,7 @@ def main():
     # the programs every generated command line may name: as script and as module
     for name in payload['scripts']:
         with open(os.path.join(root, name), 'w') as f:
-            f.write(PROG % recfile)
+            f.write(SETUP if name == 'setup.py' else PROG % recfile)
     # a file a program argument of the form @<file> would name (argparse's fromfile convention is not kernprof's)
     with open(os.path.join(root, 'args.txt'), 'w') as f:
         f.write('-v\n--outfile=stolen.prof\nalice\n')
@@ -56,7 +66,7 @@ def main():
         # (`-o -5` writes the statistics over the script called -5)
         for name in payload['scripts']:
             with open(os.path.join(root, name), 'w') as f:
-                f.write(PROG % recfile)
+                f.write(SETUP if name == 'setup.py' else PROG % recfile)
         with open(os.path.join(root, 'args.txt'), 'w') as f:
             f.write('-v\n--outfile=stolen.prof\nalice\n')
         saved_argv, saved_path = sys.argv, list(sys.path)
@@ -91,6 +101,8 @@ def main():
                 builtins.__dict__.pop('profile', None)
             line_profiler.profile.enabled = None
             line_profiler.profile._profile = None
+            import atexit
+            atexit.unregister(line_profiler.profile.show)
             for t in threading.enumerate():
                 if isinstance(t, threading.Timer):
                     t.cancel()
